@@ -129,6 +129,46 @@ def _err(v, name):
     return any(x[0] == "enum" and x[2] == name for x in walk(v)) or any(x[0] == "adt" and x[1].endswith("::" + name) for x in walk(v))
 
 
+def _limited_prefix(cx, f):
+    """Second accepted form of the size limit: every successful return is `S[..k].to_vec()` with k the number of
+    leading entries the limiter keeps -- all of S only when S has at most one entry or there is no limit, else the
+    count of the (validated) take_while predicate fed with the caller's max_size."""
+    from .logguard import limiter_closure
+    try:
+        rets = cx.pg(f).returns()
+    except OverflowError:
+        return False
+    counted = 0
+    for lits, v, _ in rets:
+        if not (v[0] == "adt" and v[1].endswith("Result::Ok")):
+            continue
+        x = v[2][0][1]
+        if not (x[0] == "call" and x[1].endswith("to_vec") and x[2][0][0] == "call" and x[2][0][1].endswith("::index") and len(x[2][0][2]) == 2):
+            return False
+        S, rng = x[2][0][2]
+        if not (rng[0] == "adt" and rng[1].endswith("RangeTo::RangeTo")):
+            return False
+        k = strip_casts(dict(rng[2])["end"])
+        if k[0] == "call" and k[1].endswith("::len") and k[2][0] == S:
+            short = any(l[0] == "is" and l[2] is False and l[1][0] == "bin" and l[1][1] == "Lt" and l[1][2] == ("int", 1) and l[1][3] == k for l in lits)
+            nolimit = any(l[0] == "in" and "max_size" in show(l[1]) and (l[2] == frozenset(["None"]) or l[2] == frozenset([18446744073709551615])) for l in lits)
+            if not (short or nolimit):
+                return False
+            continue
+        if k[0] == "call" and k[1].endswith("Iterator::count") and k[2][0][0] == "call" and k[2][0][1].endswith("take_while"):
+            it, clos = k[2][0][2]
+            if not (clos[0] == "closure" and it[0] == "call" and it[2][0] == S):
+                return False
+            ok1, ok2, _ = limiter_closure(cx, clos[1])
+            caps = dict(clos[2])
+            if not (ok1 and ok2 and any("max_size" in show(c) for c in caps.values())):
+                return False
+            counted += 1
+            continue
+        return False
+    return counted >= 1
+
+
 @obligation("MEMSTORE.error_mapping", ["C19"], floor=4, kind="return shape",
             why="compacted or not-yet-available indexes must yield the documented errors rather than wrong data")
 def error_mapping(cx):
@@ -185,6 +225,8 @@ def error_mapping(cx):
                 if f.body.blocks[bi]["term"]["k"] == "return":
                     okl = False
                 work.extend(y for y, _ in g.edges[x] or [])
+    if not lim:
+        okl = _limited_prefix(cx, f)
     cx.check(okl, "entries:limit", "every successful range read goes through limit_size(max_size)")
     asf = cx.fn("MemStorageCore::apply_snapshot")
     rets = cx.pg(asf).returns()
@@ -241,7 +283,7 @@ def mutation_guards(cx):
         for x in walk(a):
             if x[0] == "adt" and x[1].endswith("RangeTo::RangeTo"):
                 en = strip_casts(dict(x[2])["end"])
-        ok = en is not None and en[0] == "bin" and en[1] == "Sub" and en[2][0] == "param" and is_f(en[3], "Entry.index")
+        ok = en is not None and en[0] == "bin" and en[1] == "Sub" and en[2][0] == "param" and (is_f(en[3], "Entry.index") or _is_first(en[3]))
         cx.check(ok, cx.site_key(c, "compact:to"), "compact drains ..(compact_index - first entry index) (found %s)" % (show(en) if en else None), c)
     # the snapshot point (index, term, conf state of the last applied snapshot) changes only by applying a snapshot:
     # compaction drops entries, it does not invent a boundary term
